@@ -71,7 +71,7 @@ def key_match2(key1, key2):
     if key2 == "*":
         key2 = "(.*)"
 
-    return regex_match(key1, "^" + key2 + r"\Z")
+    return regex_match(key1, "(?s)^" + key2 + r"\Z")
 
 
 def key_match2_func(*args):
@@ -95,7 +95,7 @@ def key_get2(key1, key2, path_var):
     if key2 == "*":
         key2 = "(.*)"
 
-    key2 = "^" + key2 + r"\Z"
+    key2 = "(?s)^" + key2 + r"\Z"
     values = re.match(key2, key1)
     if values is None:
         return ""
@@ -113,7 +113,7 @@ def key_match3(key1, key2):
     key2 = key2.replace("/*", "/.*")
     key2 = KEY_MATCH3_PATTERN.sub(r"\g<1>[^\/]+\g<2>", key2, 0)
 
-    return regex_match(key1, "^" + key2 + r"\Z")
+    return regex_match(key1, "(?s)^" + key2 + r"\Z")
 
 
 def key_match3_func(*args):
@@ -137,7 +137,7 @@ def key_get3(key1, key2, path_var):
     if key2 == "*":
         key2 = "(.*)"
 
-    key2 = "^" + key2 + r"\Z"
+    key2 = "(?s)^" + key2 + r"\Z"
     values = re.match(key2, key1)
     if values is None:
         return ""
@@ -165,7 +165,7 @@ def key_match4(key1: str, key2: str) -> bool:
 
     key2 = KEY_MATCH4_PATTERN.sub(repl, key2)
 
-    regexp = re.compile("^" + key2 + r"\Z")
+    regexp = re.compile("(?s)^" + key2 + r"\Z")
     matches = regexp.match(key1)
 
     if matches is None:
@@ -212,7 +212,7 @@ def key_match5(key1: str, key2: str) -> bool:
 
     key2 = KEY_MATCH5_PATTERN.sub(r"[^/]+", key2, 0)
 
-    return regex_match(key1, "^" + key2 + r"\Z")
+    return regex_match(key1, "(?s)^" + key2 + r"\Z")
 
 
 def key_match5_func(*args) -> bool:
